@@ -276,6 +276,18 @@ def judge_boundary(ctx, R, rig, model, op, ops, kd, pre_commit_dump, stats, relo
             vio("second-pass-" + f.mechanism, f.summary, {"detail": f.detail, "pass": 2})
     for k2, v in cnt.items():
         ctx.count(k2, v)
+    # S8 again: what stayed loaded from the rolled-back savepoint is stale by design and an
+    # application that goes on after a savepoint rollback has to expire it itself; otherwise the
+    # unit of work acts on it later (e.g. a primary-key change that does not find the dependents
+    # a stale collection no longer lists).  The history does that right after the boundary.
+    if kind == "spr":
+        byid = {id(o): o for o in rig.objs}
+        for (oid, k) in list(fresh_stale):
+            o = byid.get(oid)
+            if (o is not None and sa.inspect(o).persistent and sa.inspect(o).session is rig.session
+                    and k in sa.inspect(o).dict and k in sa.inspect(o).manager):
+                rig.session.expire(o, [k])
+                ctx.count("s8_pairs_expired_by_history")
     return True
 
 
